@@ -7,7 +7,7 @@ from hypothesis import strategies as st
 import harness.compat  # noqa: F401
 from harness import refmodel as rm
 from harness import strategies as S
-from harness.build import mkvar, mkvc, mkfeat, mktx, mkcds, mkgene, mkcollection, mkloc_blocks, chrom_parent, chunk_parent
+from harness.build import mkvar, mkvc, mkfeat, mkfc, mktx, mkcds, mkgene, mkcollection, mkloc_blocks, chrom_parent, chunk_parent
 from harness.core import Leg, Prop
 from inscripta.biocantor.exc import BioCantorException, EmptyLocationException, LocationOverlapException
 from inscripta.biocantor.io.vcf.parser import convert_vcf_records_to_model
@@ -195,6 +195,22 @@ def check_incorporate(spec, ctx):
     elif kind == "cds":
         obj = mkcds(o, parent)
         parts = [("cds", o["blocks"], o["strand"], lambda x: x)]
+    elif kind == "fc":
+        obj = mkfc(o, parent)
+        parts = [("fc_feature:" + f["feature_id"], f["blocks"], f["strand"], (lambda fid: (lambda x: next(c for c in x.feature_intervals if c.feature_id == fid)))(f["feature_id"]))
+                 for f in o["features"]]
+    elif kind == "collection":
+        # a whole annotation collection (genes + feature collections): every member of the result carries the edits
+        obj = mkcollection(o, parent)
+        parts = []
+        for gn in o["genes"]:
+            for t in gn["transcripts"]:
+                parts.append(("collection_transcript:" + t["transcript_id"], t["exons"], t["strand"],
+                              (lambda gid, tid: (lambda x: next(tx for g_ in x.genes if g_.gene_id == gid for tx in g_.transcripts if tx.transcript_id == tid)))(gn["gene_id"], t["transcript_id"])))
+        for c_ in o["feature_collections"]:
+            for f in c_["features"]:
+                parts.append(("collection_feature:" + f["feature_id"], f["blocks"], f["strand"],
+                              (lambda cid, fid: (lambda x: next(ft for c2 in x.feature_collections if c2.feature_collection_id == cid for ft in c2.feature_intervals if ft.feature_id == fid)))(c_["feature_collection_id"], f["feature_id"])))
     else:
         obj = mkgene(o, parent)
         parts = [("gene_transcript%d" % i, t["exons"], t["strand"], (lambda i: (lambda x: x.transcripts[i]))(i)) for i, t in enumerate(o["transcripts"])]
@@ -202,6 +218,8 @@ def check_incorporate(spec, ctx):
     class_parts = [bl for _, bl, _, _ in parts]
     if kind == "gene":
         class_parts += [t["cds"] for t in o["transcripts"] if "cds" in t]
+    if kind == "collection":
+        class_parts += [t["cds"] for gn in o["genes"] for t in gn["transcripts"] if "cds" in t]
     cl = [classify(v, [tuple(b) for b in bl]) for v in vs for bl in class_parts]
     labels(ctx, spec, [tuple(b) for b in parts[0][1]], parts[0][2], vs)
     ctx.label("kind:" + kind)
@@ -217,6 +235,8 @@ def check_incorporate(spec, ctx):
         all_parts = [bl for _, bl, _, _ in parts]
         if kind == "gene":
             all_parts += [t["cds"] for t in o["transcripts"] if "cds" in t]
+        if kind == "collection":
+            all_parts += [t["cds"] for gn in o["genes"] for t in gn["transcripts"] if "cds" in t]
         deleted = any(not edited_blocks(g, [tuple(b) for b in bl], vs) for bl in all_parts)
         ctx.true("incorporate_refused_without_deletion", deleted or not clean, None)
         ctx.refuse("deleted_interval")
@@ -235,7 +255,7 @@ def check_incorporate(spec, ctx):
         eb = edited_blocks(g, [tuple(b) for b in bl], vs)
         try:
             part = get(new)
-        except INTERNAL as e:
+        except (INTERNAL, StopIteration) as e:
             ctx.fail(name + ":accessor_internal_error", repr(e)[:100])
             continue
         if part is None:
@@ -373,7 +393,7 @@ def strat_lift(draw, tier="quick"):
 
 @st.composite
 def strat_incorporate(draw, tier="quick"):
-    kind = draw(st.sampled_from(["feat", "tx", "tx", "cds", "gene"]))
+    kind = draw(st.sampled_from(["feat", "tx", "tx", "cds", "gene", "fc", "collection"]))
     if kind == "feat":
         o = draw(S.feature_spec(max_blocks=3, max_len=8, start_max=10))
         lo, hi = o["blocks"][0][0], o["blocks"][-1][1]
@@ -385,6 +405,32 @@ def strat_incorporate(draw, tier="quick"):
         o.pop("genome")
         o["frameshift"] = False
         lo, hi = o["blocks"][0][0], o["blocks"][-1][1]
+    elif kind == "fc":
+        o = draw(S.feature_collection_spec(max_feat=3, max_blocks=3, max_len=7))
+        for i, f in enumerate(o["features"]):
+            f["feature_id"] = "f%d" % i
+        lo = min(f["blocks"][0][0] for f in o["features"])
+        hi = max(f["blocks"][-1][1] for f in o["features"])
+    elif kind == "collection":
+        o = draw(S.collection_spec(max_genes=2, max_fcs=1, with_variants=False, region_step=12, tx_kw={"frameshift_prob": 0}))
+        hi = o.pop("hi")
+        o.pop("variant_collections", None)
+        for gi, gn in enumerate(o["genes"]):
+            gn["gene_id"] = "g%d" % gi
+            for ti, t in enumerate(gn["transcripts"]):
+                t["transcript_id"] = "g%dt%d" % (gi, ti)
+        for ci, c_ in enumerate(o["feature_collections"]):
+            c_["feature_collection_id"] = "c%d" % ci
+            for fi, f in enumerate(c_["features"]):
+                f["feature_id"] = "c%df%d" % (ci, fi)
+        los = [t["exons"][0][0] for gn in o["genes"] for t in gn["transcripts"]] + [f["blocks"][0][0] for c_ in o["feature_collections"] for f in c_["features"]]
+        if not los:
+            o["genes"] = [draw(S.gene_spec(max_tx=1, max_exons=2, max_len=6, frameshift_prob=0))]
+            o["genes"][0]["gene_id"] = "g0"
+            o["genes"][0]["transcripts"][0]["transcript_id"] = "g0t0"
+            los = [o["genes"][0]["transcripts"][0]["exons"][0][0]]
+            hi = max(hi, o["genes"][0]["transcripts"][0]["exons"][-1][1])
+        lo = min(los)
     else:
         o = draw(S.gene_spec(max_tx=2, max_exons=3, max_len=7, frameshift_prob=0))
         lo = min(t["exons"][0][0] for t in o["transcripts"])
